@@ -412,8 +412,8 @@ class Libs:
             UKVFile(p, mode="x", h1=b"ML10Library").close()
         return p
 
-    def open(self, lib, path, readonly=False):
-        h = LIBCLS[lib](path, readonly=readonly)
+    def open(self, lib, path, readonly=False, **kw):
+        h = LIBCLS[lib](path, readonly=readonly, **kw)
         self.open_handles.append(h)
         return h
 
@@ -800,10 +800,232 @@ def eval_seq(ctx, A, sc, seed, libs=None):
 
 
 # -------------------------------------------------------------------------------------------------
+# interleaving inside ONE writing session: every string over {put next object, get a stored key,
+# probe (contains / keys / len)} up to a length, then everything is read back in the same session,
+# in a new session of the same handle and through a new handle
+#   (user code:  with lib.writing(): lib["x_opt"] = f(lib["x"]) )
+# -------------------------------------------------------------------------------------------------
+_RICH = {"mol.name": "plain", "mol.charge": "-2", "mol.mult": "3", "mol.attrib": "nested", "atom.attrib": "nested", "atom.label": "C1", "atom.isotope": "13", "atom.formal_charge": "1", "bond.attrib": "flat", "bond.btype": "Aromatic", "bond.label": "space"}
+ILV_POOL = {
+    "mlib": [
+        {"kind": "mol", "shape": [1, 0, 1], "over": {"mol.name": "plain"}},
+        {"kind": "mol", "shape": [3, 2, 1], "over": dict(_RICH)},
+        {"kind": "conf", "shape": [2, 1, 2], "over": {"atom.isotope": "13", "mol.attrib": "flat"}},
+        {"kind": "mol", "shape": [2, 1, 1], "over": {"atom.label": "nonascii", "bond.btype": "Aromatic"}},
+    ],
+    "clib": [
+        {"kind": "ens", "shape": [1, 0, 1], "over": {"mol.name": "plain"}},
+        {"kind": "ens", "shape": [3, 2, 3], "over": dict(_RICH, **{"weights.val": "-1.5"})},
+        {"kind": "ens", "shape": [2, 1, 0], "over": {"atom.isotope": "13"}},
+        {"kind": "ens", "shape": [2, 1, 2], "over": {"atom.label": "nonascii", "bond.btype": "Aromatic"}},
+    ],
+}
+ILV_BUFS = {"default": {}, "large": {"bufsize": 1_000_000}, "zero": {"bufsize": 0}}
+
+
+def gen_ilv_strings(maxlen, npool):
+    """all op strings: 'P' (store the next object of the pool), ('G', j) (read stored object j),
+    'Q' (contains / keys / len); only strings that store something and whose last op is not a probe
+    or whose reads matter are kept (a string must contain >= 1 put)"""
+    out = []
+
+    def rec(cur, nput):
+        if cur and nput:
+            out.append(list(cur))
+        if len(cur) == maxlen:
+            return
+        if nput < npool:
+            rec(cur + ["P"], nput + 1)
+        for j in range(nput):
+            rec(cur + [["G", j]], nput)
+        if cur and cur[-1] != "Q":
+            rec(cur + ["Q"], nput)
+
+    rec([], 0)
+    out.sort(key=lambda x: (len(x), repr(x)))
+    return out
+
+
+def ilv_class(ops):
+    """input class for the signature: was a record that is not the last one stored read before a
+    later put?"""
+    nput, pending = 0, False
+    for o in ops:
+        if o == "P":
+            if pending:
+                return "get-of-earlier-record-then-put"
+            nput += 1
+        elif o != "Q" and o[1] < nput - 1:
+            pending = True
+    return "other"
+
+
+def _ilv_one(libs, A, ic, enc, seed):
+    """-> (list of symptoms, outcome, transitions)"""
+    lib, ops = ic["lib"], ic["ops"]
+    pool = ILV_POOL[lib]
+    order = list(range(len(pool)))
+    r = seed % len(order)
+    order = order[r:] + order[:r]
+    if ic.get("rev"):
+        order = order[::-1]
+    specs = [pool[i] for i in order]
+    objs = [build(A, s["kind"], tuple(s["shape"]), s["over"], seed) for s in specs]
+    exps = [snapshot(o) for o in objs]
+    confs = [s["kind"] == "conf" for s in specs]
+    allkeys = [f"key{i}" for i in range(len(pool))]
+    path = libs.new_path(lib, enc)
+    ntr = 0
+    outs = []
+    stored = []
+
+    def check_obj(stage, j, got):
+        g = snapshot(got)
+        outs.append(digest(g))
+        d = compare(exps[j], g, enc, conf_source=confs[j])
+        if not d:
+            return None
+        for k in stored:
+            if k != j and not compare(exps[k], g, enc, conf_source=confs[k]):
+                return f"{stage}:key-reads-back-as-the-object-stored-under-another-key"
+        return f"{stage}:object-differs"
+
+    def check_keys(stage, h):
+        want = sorted(f"key{j}" for j in stored)
+        ks = sorted(h.keys())
+        if ks != want:
+            return f"{stage}:key-set-differs"
+        if len(h) != len(want):
+            return f"{stage}:len-differs"
+        for k in allkeys:
+            if (k in h) != (k in want):
+                return f"{stage}:contains-differs"
+        return None
+
+    def read_all(stage, h):
+        sym = check_keys(stage, h)
+        if sym:
+            return sym
+        for j in stored:
+            sym = check_obj(stage, j, h[f"key{j}"])
+            if sym:
+                return sym
+        return None
+
+    stage = "in-session"
+    try:
+        h = libs.open(lib, path, readonly=False, **ILV_BUFS[ic.get("buf", "default")])
+        check_version(h, enc)
+        with h.writing(timeout=10):
+            for o in ops:
+                ntr += 1
+                if o == "P":
+                    j = len(stored)
+                    h[f"key{j}"] = objs[j]
+                    stored.append(j)
+                elif o == "Q":
+                    sym = check_keys("in-session-probe", h)
+                    if sym:
+                        return [sym], tuple(outs), ntr
+                else:
+                    sym = check_obj("in-session-get", o[1], h[f"key{o[1]}"])
+                    if sym:
+                        return [sym], tuple(outs), ntr
+            stage = "same-session-readback"
+            sym = read_all(stage, h)
+            ntr += len(stored)
+            if sym:
+                return [sym], tuple(outs), ntr
+        stage = "new-session-readback"
+        with h.reading(timeout=10):
+            sym = read_all(stage, h)
+            ntr += len(stored)
+        if sym:
+            return [sym], tuple(outs), ntr
+        stage = "new-handle-readback"
+        h2 = libs.open(lib, path, readonly=True)
+        with h2.reading(timeout=10):
+            sym = read_all(stage, h2)
+            ntr += len(stored)
+        if sym:
+            return [sym], tuple(outs), ntr
+        return [], tuple(outs), ntr
+    except HarnessError:
+        raise
+    except Exception as e:
+        return [f"{stage}:{exc_sig(e)}"], tuple(outs) + (type(e).__name__,), ntr
+    finally:
+        libs.done()
+
+
+def eval_ilv(ctx, A, ic, seed, libs=None):
+    libs = libs or Libs(ctx.scratch)
+    res, outs, ntr = {}, [], 0
+    for enc in ("v2", "v1"):
+        syms, out, n = _ilv_one(libs, A, ic, enc, seed)
+        res[enc] = syms
+        outs.append(out)
+        ntr += n
+    ctx.count(evaluations=2, states=1, transitions=ntr, traces=2)
+    ctx.outcome(("ilv", tuple(outs)))
+    nput = sum(1 for o in ic["ops"] if o == "P")
+    if nput >= 2 and any(o != "P" and o != "Q" for o in ic["ops"]):
+        ctx.nontrivial(("ilv", ic["lib"], ic.get("buf", "default"), bool(ic.get("rev")), repr(ic["ops"])))
+    cls = ilv_class(ic["ops"])
+    common = [x for x in res["v2"] if x in res["v1"]]
+    todo = [("any", x) for x in common] + [(enc, x) for enc in ("v2", "v1") for x in res[enc] if x not in common]
+    for enc, sym in todo:
+        ctx.violation(
+            f"interleave|{ic['lib']}|enc={enc}|buf={ic.get('buf', 'default')}|{cls}|{sym}",
+            f"one writing session on one handle, ops {ic['ops']} (P = store next object, [G,j] = read key j, Q = contains/keys/len): {sym}",
+            dict(ic, mode="interleave", enc=enc),
+            repro=ilv_repro(ic),
+        )
+
+
+def ilv_repro(ic):
+    cls = "MoleculeLibrary" if ic["lib"] == "mlib" else "ConformerLibrary"
+    mk = "ml.Molecule(['C'] * (n + 1), name=f'obj{n}')" if ic["lib"] == "mlib" else "ml.ConformerEnsemble(['C'] * (n + 1), n_conformers=2, name=f'obj{n}')"
+    kw = {"default": "", "large": ", bufsize=1_000_000", "zero": ", bufsize=0"}[ic.get("buf", "default")]
+    L = ["import os, molli as ml", f"p = '/tmp/c01_interleave.{ic['lib']}'", "if os.path.exists(p): os.unlink(p)", f"def mk(n): return {mk}", f"lib = ml.{cls}(p, readonly=False{kw})", "with lib.writing():"]
+    n = 0
+    for o in ic["ops"]:
+        if o == "P":
+            L.append(f"    lib['key{n}'] = mk({n})")
+            n += 1
+        elif o == "Q":
+            L.append("    print(sorted(lib.keys()), len(lib))")
+        else:
+            L.append(f"    print(lib['key{o[1]}'].name)")
+    L.append(f"new = ml.{cls}(p)")
+    L.append("with new.reading():")
+    L.append(f"    print(sorted(new.keys()))          # expected {[f'key{i}' for i in range(n)]}")
+    L.append("    for k in sorted(new.keys()): print(k, new[k].name, new[k].n_atoms)   # expected key<i> obj<i> i+1")
+    return "\n".join(L)
+
+
+def gen_ilv_cases(thorough):
+    out = []
+    L = 6 if thorough else 5
+    strings = gen_ilv_strings(L, 4 if thorough else 3)
+    for lib in ("mlib", "clib"):
+        for ops in strings:
+            out.append({"lib": lib, "ops": ops, "buf": "default"})
+        # write buffer variants and the reversed pool order on the shorter strings
+        for buf in ("large", "zero"):
+            for ops in strings:
+                if len(ops) <= (5 if thorough else 4):
+                    out.append({"lib": lib, "ops": ops, "buf": buf})
+        for ops in strings:
+            if len(ops) <= (5 if thorough else 4):
+                out.append({"lib": lib, "ops": ops, "buf": "default", "rev": True})
+    return out
+
+
+# -------------------------------------------------------------------------------------------------
 # repeated retrieval: what is stored reads back equal EVERY time, whatever was done to an object
 # retrieved earlier (and whatever is done to the source object after it was stored)
 # -------------------------------------------------------------------------------------------------
-_RICH = {"mol.name": "plain", "mol.charge": "-2", "mol.mult": "3", "mol.attrib": "nested", "atom.attrib": "nested", "atom.label": "C1", "atom.isotope": "13", "atom.formal_charge": "1", "bond.attrib": "flat", "bond.btype": "Aromatic", "bond.label": "space"}
 REGET_OBJS = [
     {"kind": "mol", "shape": [3, 2, 1], "over": dict(_RICH)},
     {"kind": "mol", "shape": [1, 0, 1], "over": {}},
@@ -1116,6 +1338,10 @@ def _part(ctx, part):
     kind, payload = part
     if kind == "cases":
         eval_cases(ctx, A, payload, ctx.seed)
+    elif kind == "ilv":
+        libs = Libs(ctx.scratch)
+        for ic in payload:
+            eval_ilv(ctx, A, ic, ctx.seed, libs)
     elif kind == "reget":
         libs = Libs(ctx.scratch)
         for rc in payload:
@@ -1133,7 +1359,7 @@ def run(ctx):
         "bounded-exhaustive small-scope grammar: every field value alone and every pair of values of two different "
         "fields (atom, bond, molecule/ensemble records, coordinates/charges/weights value classes, conformer count), "
         "every shape 0..3 atoms x 0..3 bonds x 0..3 conformers, Conformer views, every put/read order of 1..3 objects "
-        "x handles x sessions, get / mutate the retrieved object in place / get again over 6 retrieval routes and 2 write-side routes; each case written to and read from real v2 and v1 MoleculeLibrary/ConformerLibrary files "
+        "x handles x sessions, every string of {put, get of any stored key, contains/keys/len} up to length 5 (thorough 6) inside one writing session followed by a full read-back in the same session / a new session / a new handle, get / mutate the retrieved object in place / get again over 6 retrieval routes and 2 write-side routes; each case written to and read from real v2 and v1 MoleculeLibrary/ConformerLibrary files "
         "and compared field by field with a snapshot taken by the harness's own walker; a case is non-trivial when the "
         "object has >= 1 atom and >= 1 field differs from the constructor defaults (or >= 2 objects for sequences)"
     )
@@ -1149,12 +1375,15 @@ def run(ctx):
     cases = gen_field_cases(A, thorough, ctx.seed) + gen_shape_cases(A, thorough)
     seqs = gen_seq_cases()
     regets = gen_reget_cases(A, thorough)
+    ilvs = gen_ilv_cases(thorough)
     ctx.bound.update(
         {
             "field_cases": sum(1 for c in cases if not c["tag"].startswith("shape")),
             "shape_cases": sum(1 for c in cases if c["tag"].startswith("shape")),
             "sequence_cases": len(seqs),
             "repeated_retrieval_cases": len(regets),
+            "interleaved_session_cases": len(ilvs),
+            "interleaved_session_max_length": max(len(c["ops"]) for c in ilvs),
             "repeated_retrieval_routes": READ_ROUTES + WRITE_ROUTES,
             "encodings": ["v2", "v1"],
             "alphabet_sizes": {d: len(v) for d, v in A.items()},
@@ -1183,6 +1412,15 @@ def run(ctx):
     nchunk = 64 if thorough else 16
     parts = [("cases", cases[i::nchunk]) for i in range(nchunk)]
     parts = [p for p in parts if p[1]]
+    # interleavings: the short strings first, in the master, in a fixed order (a defect that shows in
+    # a short string is then always kept with the same, shortest, counterexample); the rest in parts
+    short = [c for c in ilvs if len(c["ops"]) <= 4]
+    libs0 = Libs(ctx.scratch)
+    for c in short:
+        eval_ilv(ctx, A, c, ctx.seed, libs0)
+    long_ = [c for c in ilvs if len(c["ops"]) > 4]
+    nl = 16 if thorough else 8
+    parts += [("ilv", long_[i::nl]) for i in range(nl) if long_[i::nl]]
     parts += [("reget", regets)]  # one part, fixed order
     parts += [("seq", seqs)]  # one part: the kept counterexample of a sequence signature is the first in order
     ctx.pmap(_part, parts)
@@ -1192,6 +1430,9 @@ def replay(ctx, case):
     A = alphabets(True)
     if case.get("mode") == "sequence":
         eval_seq(ctx, A, case, ctx.seed)
+        return
+    if case.get("mode") == "interleave":
+        eval_ilv(ctx, A, {k: v for k, v in case.items() if k in ("lib", "ops", "buf", "rev")}, ctx.seed)
         return
     if case.get("mode") == "reget":
         eval_reget(ctx, A, {"mode": "reget", "spec": case["spec"], "route": case["route"], "n": case.get("n", 0)}, ctx.seed)
